@@ -1,10 +1,15 @@
 //! qv — bounded-exhaustive checks of the properties in /verif/properties.jsonl against /repo.
 //! usage: qv <ID> <quick|thorough> [--replay <file>]
+mod c02;
+mod c04;
+mod c05;
 mod c06;
 mod c10;
 mod c11;
 mod c12;
+mod c13;
 mod c15;
+mod c16;
 mod c17;
 mod c18;
 mod sqlchecks;
@@ -79,6 +84,11 @@ fn main() {
         "C01" => dpchecks::run(&ctx, dpchecks::Which::C01),
         "C03" => dpchecks::run(&ctx, dpchecks::Which::C03),
         "C09" => dpchecks::run(&ctx, dpchecks::Which::C09),
+        "C02" => c02::run(&ctx),
+        "C04" => c04::run(&ctx),
+        "C05" => c05::run(&ctx),
+        "C13" => c13::run(&ctx),
+        "C16" => c16::run(&ctx),
         "C06" => c06::run(&ctx),
         "C07" => sqlchecks::run_sql_check(&ctx, sqlchecks::Which::C07),
         "C08" => sqlchecks::run_sql_check(&ctx, sqlchecks::Which::C08),
